@@ -29,7 +29,7 @@ def harnesses(tier):
         h += P.curated_h(["P12-bounded-queue", "P2-two-submitters", "P11-saturate"], [(1, 0), (2, 1)], "sync", qsize=1)
         h += P.generated_h(4, [(1, 0), (1, 1), (2, 0), (2, 1), (3, 1)], "sync")
         h += P.curated_h(ALL, [(1, 0), (1, 1), (2, 0), (2, 1)], "line")
-    h += P.scale_h(tier, ["S1-twelve-tasks", "S2-ten-prequeued", "S4-two-submitters-five-each", "S8-backlog-behind-gate"])  # many tasks / restarts / larger pools, first ladder levels
+    h += P.scale_h(tier, ["S10-callable-kinds", "S1-twelve-tasks", "S2-ten-prequeued", "S4-two-submitters-five-each", "S8-backlog-behind-gate"])  # many tasks / restarts / larger pools, first ladder levels
     return h
 
 
